@@ -2,5 +2,5 @@ CONSTANTS SegMax = 3  NodeId = 1  Walk = FALSE  WalkLen = 0  ProbeKind = "full" 
 CONSTANT Dict <- MCDict  Mux <- MCMux  Letters <- LettersFull
 INIT Init
 NEXT Next
-VIEW View
+VIEW ViewM
 INVARIANTS InvSrv InvC04 InvNoWedge
